@@ -55,3 +55,8 @@ package bytesconv
 // Logging has no effect on any modelled state.
 //@ trusted-pure hlog
 //@ trusted-pure hlog.FullLogger
+
+// time formatting/parsing touches no modelled state.
+//@ trusted-pure time
+//@ trusted-pure time.Time
+//@ trusted-pure time.Location
